@@ -142,7 +142,7 @@ def worker_main(prop, seed, start, stride, count, out_dir, wallcap, log_digests,
             else:
                 agg['violation'] = {'index': index, 'hash_seed': os.environ.get('PYTHONHASHSEED'),
                                     'trace': trace, 'violation': res.violation, 'signature': sig,
-                                    'history': {'start': start, 'stride': stride, 'run_offset': run_offset, 'deep': bool(deep), 'i': i, 'done': done,
+                                    'history': {'argv': list(sys.argv[1:]), 'start': start, 'stride': stride, 'run_offset': run_offset, 'deep': bool(deep), 'i': i, 'done': done,
                                                 'log_digests': bool(log_digests)}}
                 break
         i += stride
@@ -167,8 +167,23 @@ def worker_main(prop, seed, start, stride, count, out_dir, wallcap, log_digests,
 # ----------------------------------------------------------------------------------------------
 # parent
 # ----------------------------------------------------------------------------------------------
+_ENV_KEEP = ('PATH', 'HOME', 'LANG', 'LC_ALL', 'LD_LIBRARY_PATH', 'VERIF_REPO', 'TMPDIR')
+
+
+def _no_aslr():
+    # where an object lives in memory is a source of nondeterminism too (id()-keyed caches, address-based hashes of objects in
+    # sets): worker processes run without address-space randomisation, so that the same arguments and environment give the same
+    # addresses.  Where the system call is refused the worker simply runs with randomisation.
+    try:
+        import ctypes
+        ctypes.CDLL(None).personality(0x0040000)        # ADDR_NO_RANDOMIZE, inherited across exec
+    except Exception:
+        pass
+
+
 def _spawn(args, hash_seed, env_extra=None):
-    env = dict(os.environ)
+    # a fixed, small environment: what the invoking shell happens to export shifts addresses in the child
+    env = {k_: os.environ[k_] for k_ in _ENV_KEEP if k_ in os.environ}
     env['PYTHONHASHSEED'] = str(hash_seed)
     env['PYTHONDONTWRITEBYTECODE'] = '1'
     env['OMP_NUM_THREADS'] = '1'
@@ -180,7 +195,7 @@ def _spawn(args, hash_seed, env_extra=None):
     env['VERIF_CPU_COUNT'] = str(CPU_CLASSES[k_ % len(CPU_CLASSES)])
     if env_extra:
         env.update(env_extra)
-    return subprocess.Popen([PY, CHECK] + args, env=env, cwd=VERIF, stdout=subprocess.PIPE, stderr=subprocess.STDOUT, text=True)
+    return subprocess.Popen([PY, CHECK] + args, env=env, cwd=VERIF, stdout=subprocess.PIPE, stderr=subprocess.STDOUT, text=True, preexec_fn=_no_aslr)
 
 
 def batch(prop, tier, seed, runs=None, workers=None, wallcap=None, log_digests=False, out_dir=None,
@@ -195,7 +210,7 @@ def batch(prop, tier, seed, runs=None, workers=None, wallcap=None, log_digests=F
     workers = workers or min(16, os.cpu_count() or 1)
     t0 = time.monotonic()
     keep_out = out_dir is not None
-    out_dir = out_dir or os.path.join(VERIF, '.work', '%s-%s-%d' % (prop, tier, os.getpid()))
+    out_dir = out_dir or os.path.join(VERIF, '.work', '%s-%s-%08d' % (prop, tier[0], os.getpid()))     # fixed length: it is part of the workers' argv
     shutil.rmtree(out_dir, ignore_errors=True)
     os.makedirs(out_dir)
     per = [len(range(k, cfg['runs'], nclass)) for k in range(nclass)]
@@ -498,6 +513,27 @@ def replay_main(prop, path):
         tmp = os.path.join(VERIF, '.work', 'replay-%d' % os.getpid())
         shutil.rmtree(tmp, ignore_errors=True)
         os.makedirs(tmp)
+        got = None
+        if w.get('argv') and '--out' in w['argv']:
+            # first the worker exactly as it was started (same arguments, same environment class, no address randomisation):
+            # then also the addresses are the same and the failure strikes at the same run
+            out0 = w['argv'][w['argv'].index('--out') + 1]
+            existed = os.path.isdir(out0)
+            os.makedirs(out0, exist_ok=True)
+            p = _spawn(list(w['argv']), w['hash_seed'])
+            p.communicate()
+            rp = os.path.join(out0, 'result-%d.json' % w['start'])
+            if os.path.exists(rp):
+                with open(rp) as f:
+                    got = json.load(f).get('violation')
+            if not existed:
+                shutil.rmtree(out0, ignore_errors=True)
+            print('re-ran the worker with its original arguments')
+            if got:
+                print('VIOLATION property=%s replay=%s' % (prop, path))
+                print('  %s: %s%s' % (got['violation']['cls'], got['violation']['msg'],
+                                      '' if got['index'] == rec['index'] else '  [struck at run %d this time, %d originally: depends on memory layout]' % (got['index'], rec['index'])))
+                return 1
         # a failure that depends on memory layout need not strike at the very same run again: the worker is given four times
         # as many runs, and a violation of the same class anywhere in them counts as the reproduction
         args = [prop, '--worker', '--seed', str(w['seed']), '--start', str(w['start']), '--stride', str(w['stride']), '--count', str(4 * (w['done'] + 1) + 50),
